@@ -135,8 +135,8 @@ def run(d, name, workers=16, timeout=600, simulate=None, depth=None, seed=None, 
     (TLC's own verdict on the model); machinery failures raise MachineryError.
     """
     cmd = ['java', '-XX:+UseParallelGC']
-    if heap:
-        cmd.append('-Xmx' + heap)
+    # cap the Java heap: the default (a quarter of the machine) let five concurrent checks exhaust the memory
+    cmd.append('-Xmx' + (heap or os.environ.get('VERIF_TLC_HEAP', '8g')))
     cmd += ['-Xss' + xss, '-cp', JAR, 'tlc2.TLC', '-workers', str(workers),
             '-metadir', os.path.join(d, 'states_' + name), '-noGenerateSpecTE', '-config', name + '.cfg']
     if simulate is not None:
